@@ -81,8 +81,6 @@ class AddChecker:
                     raise Violation(f"{ctx}: counter {c0} -> {c1} but {c0}+{v} <= num_reserved+1={nr+1} must be exact", "log-reserved-exact")
                 if float(qk1) != float(qk0) + v:
                     raise Violation(f"{ctx}: estimate {qk0} -> {qk1}, expected exactly +{v} in the reserved range", "log-reserved-exact")
-            if float(qk1) != decode(sk, c1) and abs(float(qk1) - decode(sk, c1)) > 1e-9 * max(1.0, decode(sk, c1)):
-                raise Violation(f"{ctx}: query {qk1} is not the decoded value of the smallest counter {c1} ({decode(sk, c1)})", "log-decode")
             cut = c1 >= umax
         # other keys
         for u in pre["keys"]:
@@ -108,8 +106,6 @@ class AddChecker:
         veff = min(v, CEIL) if kind == "linear" else v
         if not cut and dn != veff:
             raise Violation(f"{ctx}: n_added grew by {dn}, expected {veff}", "n_added")
-        if int(sk.n_records()) != pre["n_records"]:
-            raise Violation(f"{ctx}: n_records changed", "n_records")
         # non-triviality: conservative updating differs from plain updating
         own = [int(pre["cms"][r, c]) for r, c in enumerate(cells)]
         if len(set(own)) > 1 and v > 0:
